@@ -7,8 +7,8 @@ namespace Logrange.Rd
 def qOne (w : Bool) : Qry := { text := 1, where_ := w }
 
 theorem ql_newCur (j : Journal) (w : Bool) (p : PosText) :
-    newCur [(0, j)] [] (qOne w) p = some (applyPosText (mk1 0 j w) p) := by
-  simp [newCur, orderBy, resolve, qOne, mk1]
+    newCur [(0, j)] (qOne w) p = some (applyPosText (mk1 0 j w) p) := by
+  simp [newCur, sortSrcs, insertSrc, resolve, qOne, mk1]
 
 /-- the request is ready to be served from flat index `i` -/
 def Ready (j : Journal) (w : Bool) (srv : Server) (req : Req) (i : Nat) : Prop :=
@@ -16,15 +16,6 @@ def Ready (j : Journal) (w : Bool) (srv : Server) (req : Req) (i : Nat) : Prop :
   ((req.pos = .empty ∧ i = 0) ∨ ∃ p, req.pos = .map [(0, p)] ∧ flatIdx j p = i) ∧
   (∀ h, req.id > 0 → srv.held.find? (·.id == req.id) = some h →
       h.qtext = 1 ∧ h.pos = req.pos ∧ ∃ p, PC 0 j w h.cur i p)
-
-/-- the cursor `query` ends up reading from -/
-def servedCur (srv : Server) (req : Req) (w : Bool) : Cur × Bool × Nat × Server :=
-  let lim := req.limit
-  let found : Option Held := if req.id > 0 then srv.held.find? (·.id == req.id) else none
-  let applied : Option Held := found.bind (fun h => applyState h 1 req.pos)
-  match applied with
-  | some h => (setJournals h.cur srv.store, true, h.id, srv)
-  | none => (default, false, 0, srv)
 
 end Logrange.Rd
 namespace Logrange.Rd
@@ -34,7 +25,7 @@ def limOf (M : Nat) (req : Req) : Nat := if req.limit > M then M else req.limit
 theorem ql_query_held (M : Nat) (srv : Server) (req : Req) (q : Qry) (h0 h : Held)
     (hq : req.query = some q) (hid : req.id > 0) (hf : srv.held.find? (·.id == req.id) = some h0)
     (ha : applyState h0 q.text req.pos = some h) :
-    query M srv [] req =
+    query M srv req =
       let c := offset (setJournals h.cur srv.store) req.offset
       let pg := pageOn (limOf M req) c
       ({ srv with held := { id := h.id, qtext := q.text, pos := .map pg.2.2, cur := pg.1 } :: srv.held.filter (·.id != h.id) },
@@ -44,12 +35,12 @@ theorem ql_query_held (M : Nat) (srv : Server) (req : Req) (q : Qry) (h0 h : Hel
 theorem ql_query_new (M : Nat) (srv : Server) (req : Req) (q : Qry) (c0 : Cur)
     (hq : req.query = some q)
     (hnf : (if req.id > 0 then srv.held.find? (·.id == req.id) else none) = none)
-    (hc : newCur srv.store [] q req.pos = some c0) :
+    (hc : newCur srv.store q req.pos = some c0) :
     let cache := req.wait || limOf M req ≠ req.limit
     let id := if req.id = 0 then srv.nextId else req.id
     let srv1 : Server := if req.id = 0 then { srv with nextId := srv.nextId + 1 } else srv
     let pg := pageOn (limOf M req) (offset c0 req.offset)
-    query M srv [] req =
+    query M srv req =
       if cache then
         ({ srv1 with held := { id := id, qtext := q.text, pos := .map pg.2.2, cur := pg.1 } :: srv1.held.filter (·.id != id) },
          { events := pg.2.1, next := { id := id, query := some q, pos := .map pg.2.2, limit := limOf M req, wait := req.wait } })
@@ -73,9 +64,9 @@ include HG HN
 
 theorem ql_page {j : Journal} {w : Bool} (hs : Sorted j) (M : Nat) (srv : Server) (req : Req) (i : Nat)
     (hr : Ready j w srv req i) :
-    ∃ i', (query M srv [] req).2.events = (FL j w i).take (limOf M req) ∧
+    ∃ i', (query M srv req).2.events = (FL j w i).take (limOf M req) ∧
       FL j w i' = (FL j w i).drop (limOf M req) ∧
-      Ready j w (query M srv [] req).1 (query M srv [] req).2.next i' := by
+      Ready j w (query M srv req).1 (query M srv req).2.next i' := by
   obtain ⟨hq, hoff, hstore, hpos, hheld⟩ := hr
   have hq1 : (qOne w).text = 1 := rfl
   by_cases hfound : req.id > 0 ∧ ∃ h0, srv.held.find? (·.id == req.id) = some h0
@@ -104,7 +95,7 @@ theorem ql_page {j : Journal} {w : Bool} (hs : Sorted j) (M : Nat) (srv : Server
         | none => rfl
         | some h0 => exact absurd ⟨hid, h0, hfd⟩ hfound
       · simp [hid]
-    have hc : newCur srv.store [] (qOne w) req.pos = some (applyPosText (mk1 0 j w) req.pos) := by
+    have hc : newCur srv.store (qOne w) req.pos = some (applyPosText (mk1 0 j w) req.pos) := by
       rw [hstore]; exact ql_newCur j w req.pos
     have habs : Abs 0 j w true (offset (applyPosText (mk1 0 j w) req.pos) req.offset) i := by
       rw [hoff]
@@ -132,14 +123,14 @@ theorem ql_page {j : Journal} {w : Bool} (hs : Sorted j) (M : Nat) (srv : Server
 
 theorem ql_pagesFrom {j : Journal} {w : Bool} (hs : Sorted j) (M : Nat) (orig : Req) (ho : orig.query = some (qOne w)) :
     ∀ (steps : List Step) (srv : Server) (prev : Page) (i : Nat), Ready j w srv prev.next i →
-    (∀ s ∈ steps, s.store' = none ∧ s.perm = []) →
+    (∀ s ∈ steps, s.store' = none) →
     (pagesFrom M orig srv prev steps).flatten = (FL j w i).take ((steps.map (fun s => min s.limit M)).sum) := by
   intro steps
   induction steps with
   | nil => intro srv prev i _ _; simp [pagesFrom]
   | cons st rest ih =>
     intro srv prev i hr hall
-    obtain ⟨hst, hperm⟩ := hall st (List.mem_cons_self ..)
+    have hst := hall st (List.mem_cons_self ..)
     obtain ⟨hq, hoff, hstore, hpos, hheld⟩ := hr
     -- the request the client builds is ready, whatever it chose
     have hready : Ready j w (if st.resume = .evicted then { srv with held := [] } else srv) (nextReq orig prev st) i := by
@@ -164,7 +155,7 @@ theorem ql_pagesFrom {j : Journal} {w : Bool} (hs : Sorted j) (M : Nat) (orig : 
       cases hres : st.resume <;> simp [nextReq, hres]
     obtain ⟨i', ev, f', hr'⟩ := ql_page HG HN hs M _ _ i hready
     rw [pagesFrom]
-    simp only [hst, hperm]
+    simp only [hst]
     rw [List.flatten_cons, ih _ _ i' hr' (fun s hs' => hall s (List.mem_cons_of_mem _ hs')), ev, f',
       ql_limOf, hlim]
     simp only [List.map_cons, List.sum_cons]
@@ -172,8 +163,8 @@ theorem ql_pagesFrom {j : Journal} {w : Bool} (hs : Sorted j) (M : Nat) (orig : 
 
 /-- **paging at the request level** (`Querier.Query` + provider): one partition, every limit list, every resume mode -/
 theorem ql_pages {j : Journal} {w : Bool} (hs : Sorted j) (M : Nat) (l0 : Nat) (wait : Bool) (steps : List Step)
-    (hall : ∀ s ∈ steps, s.store' = none ∧ s.perm = []) :
-    (pages M { store := [(0, j)] } [] { query := some (qOne w), limit := l0, wait := wait } steps).flatten =
+    (hall : ∀ s ∈ steps, s.store' = none) :
+    (pages M { store := [(0, j)] } { query := some (qOne w), limit := l0, wait := wait } steps).flatten =
       ((flat j).filter (keepW w)).take (((l0 :: steps.map (·.limit)).map (fun l => min l M)).sum) := by
   have hr0 : Ready j w ({ store := [(0, j)] } : Server) { query := some (qOne w), limit := l0, wait := wait } 0 := by
     refine ⟨rfl, rfl, rfl, Or.inl ⟨rfl, rfl⟩, ?_⟩
